@@ -15,7 +15,7 @@ use std::collections::BTreeMap;
 /// gap marker inside templates: a place where SAS ignores blanks and comments
 const GAP: char = '~';
 /// the last filler is a run of 66 hidden tokens: longer than any bounded look-behind window
-pub const FILLERS: &[&str] = &["", " ", " /*c*/\n", "/*a*//*b*/", "/*c*/ ", "/*c*/ /*c*/ /*c*/ /*c*/ /*c*/ /*c*/ /*c*/ /*c*/ /*c*/ /*c*/ /*c*/ /*c*/ /*c*/ /*c*/ /*c*/ /*c*/ /*c*/ /*c*/ /*c*/ /*c*/ /*c*/ /*c*/ /*c*/ /*c*/ /*c*/ /*c*/ /*c*/ /*c*/ /*c*/ /*c*/ /*c*/ /*c*/ /*c*/ ", "\u{a0}"];
+pub const FILLERS: &[&str] = &["", " ", " /*c*/\n", "/*a*//*b*/", "/*c*/ ", "/*c*/ /*c*/ /*c*/ /*c*/ /*c*/ /*c*/ /*c*/ /*c*/ /*c*/ /*c*/ /*c*/ /*c*/ /*c*/ /*c*/ /*c*/ /*c*/ /*c*/ /*c*/ /*c*/ /*c*/ /*c*/ /*c*/ /*c*/ /*c*/ /*c*/ /*c*/ /*c*/ /*c*/ /*c*/ /*c*/ /*c*/ /*c*/ /*c*/ ", "\u{a0}", "\u{b}"];
 
 /// (own type, template with one `{}` hole, hole type)
 /// types: S statement, T macro text, O open-code value, E integer expression operand,
@@ -83,6 +83,12 @@ const CONTEXTS: &[(char, &str, char)] = &[
     ('E', "{} and 1", 'E'),
     ('E', "{} in 1 2", 'E'),
     ('A', "({})", 'A'),
+    // macro statements inside the argument of a user macro call and inside an open-code string,
+    // followed by more of the same open-code statement
+    ('S', "%m(a%do;~{} %end;);", 'A'),
+    ('S', "x=%m(%do;{}%end;) * 'a;b';", 'A'),
+    ('S', "y=\"a%do; {} %end;\" * 2;", 'Q'),
+    ('S', "x={} * 'a;b';", 'O'),
     ('A', "a {}", 'A'),
     ('A', "{},b", 'A'),
     ('Q', "a{}b", 'Q'),
@@ -112,7 +118,7 @@ const LEAVES: &[(char, &[&str])] = &[
         'V',
         &[
             "a", "&v", "&&v&i", "a&i", "v2345678901234567890123456789012", "%m()", "%m()1", "a%m()", "%sysfunc(f())", "%sysfunc(f())9",
-            "%m()&v",
+            "%m()&v", "%m&v", "%m%n()", "%m&v.x",
         ],
     ),
 ];
@@ -445,7 +451,7 @@ fn c12_run(cfg: &Config) -> PropRun {
     report.distinct_nontrivial = ex.distinct_nontrivial.load(std::sync::atomic::Ordering::Relaxed);
     PropRun {
         report,
-        rule: format!("every derivation chain of the construct grammar G ({} contexts, 9 hole types) of depth <= {} with every gap filler of {{none, blank, blank+comment+newline, two adjacent comments, comment+blank, a run of 66 hidden tokens, NBSP}}, and of depth <= {d} with one of these fillers per chain (rotating over the chain index); every ordered pair of programs of depth <= {dd} joined by each of 10 separators (blank, nothing, LF, CRLF, TAB, FF, NBSP, U+2028, NEL, commented blank); one well-formed instance of every macro statement keyword and every argument-taking built-in function inside every statement context of depth <= 2 with every filler; non-trivial = mode stack depth >= 6 reached; states/transitions = end configurations at the token boundaries of every {trace_every}th program", CONTEXTS.len(), d - 1),
+        rule: format!("every derivation chain of the construct grammar G ({} contexts, 9 hole types) of depth <= {} with every gap filler of {{none, blank, blank+comment+newline, two adjacent comments, comment+blank, a run of 66 hidden tokens, NBSP, VT}}, and of depth <= {d} with one of these fillers per chain (rotating over the chain index); every ordered pair of programs of depth <= {dd} joined by each of 10 separators (blank, nothing, LF, CRLF, TAB, FF, NBSP, U+2028, NEL, commented blank); one well-formed instance of every macro statement keyword and every argument-taking built-in function inside every statement context of depth <= 2 with every filler; non-trivial = mode stack depth >= 6 reached; states/transitions = end configurations at the token boundaries of every {trace_every}th program", CONTEXTS.len(), d - 1),
         oracle: "no error at all; end-of-input configuration = ([Default], nesting 0, pending [false], no checkpoint)".into(),
     }
 }
@@ -519,6 +525,9 @@ fn value_shapes() -> Vec<(Vec<Piece>, bool)> {
         ),
         (vec![other("a"), masked("(b,c)"), other("d")], false),
         (vec![other("1"), masked(";"), other("2")], false),
+        // a second '=' at the top level of a value: only where the first '=' already made it a value
+        (vec![other("obs"), masked("="), other("10")], true),
+        (vec![other("&v"), masked("= "), other("%n"), delim("(", T::LPAREN), delim(")", T::RPAREN)], true),
         (vec![], false),
     ]
 }
@@ -535,8 +544,10 @@ enum ArgModel {
 
 fn arg_lists(model: ArgModel, max_args: usize) -> Vec<Vec<(bool, usize)>> {
     // (named?, shape index)
-    let ns = value_shapes().len();
-    let mut per_arg: Vec<(bool, usize)> = (0..ns).map(|s| (false, s)).collect();
+    let shapes = value_shapes();
+    let ns = shapes.len();
+    // a value with a top-level '=' would itself be a named argument where names are allowed
+    let mut per_arg: Vec<(bool, usize)> = (0..ns).filter(|s| !(model == ArgModel::Named && shapes[*s].1)).map(|s| (false, s)).collect();
     if model == ArgModel::Named {
         per_arg.extend((0..ns).map(|s| (true, s)));
     }
@@ -685,6 +696,10 @@ fn operand_shapes() -> Vec<Vec<Piece>> {
         vec![other("&v")],
         vec![other("ab")],
         // a mnemonic spelling inside a word is not an operator
+        // macro variable expressions with several ampersand runs, closed by their dots
+        vec![other("&&&a&&b.")],
+        vec![other("&&a&b&&c.")],
+        vec![other("&&&&a&&b&c&&d..")],
         vec![p("a_or", Kind::Word)],
         vec![p("b_in", Kind::Word)],
         vec![p("v2ne", Kind::Word)],
@@ -716,7 +731,9 @@ fn build_expr(ops: &[usize], unary_at: Option<usize>, shape_at: (usize, usize), 
         let next_text = &next[0].text;
         // blanks are mandatory around mnemonics; `&` directly followed by a name would be a
         // macro variable reference
-        let before = if op.mnemonic && fill_before.is_empty() { " " } else { fill_before };
+        // (a mnemonic may be glued to the dot that terminates a macro variable reference)
+        let prev_dot = v.last().is_some_and(|pc: &Piece| pc.text.ends_with('.') && pc.text.starts_with('&'));
+        let before = if op.mnemonic && fill_before.is_empty() && !prev_dot { " " } else { fill_before };
         let mut after = if op.mnemonic && fill_after.is_empty() { " " } else { fill_after };
         let un = unary_at.filter(|u| *u == k).map(|_| &all[all.len() - 1 - (k % 7)]);
         let after_owner_text = un.map_or(next_text.as_str(), |u| u.text);
@@ -836,6 +853,7 @@ struct CallHead {
 
 const CALL_HEADS: &[CallHead] = &[
     CallHead { head: "%m", model: ArgModel::Named, hidden: false, min_args: 0, max_args: 3 },
+    CallHead { head: "%\u{e9}t\u{e9}", model: ArgModel::Named, hidden: false, min_args: 0, max_args: 2 },
     CallHead { head: "%verify", model: ArgModel::Named, hidden: false, min_args: 1, max_args: 3 },
     CallHead { head: "%cmpres", model: ArgModel::Positional, hidden: false, min_args: 1, max_args: 3 },
     CallHead { head: "%qleft", model: ArgModel::Positional, hidden: false, min_args: 1, max_args: 2 },
@@ -1027,7 +1045,22 @@ fn c13_items(tier: Tier) -> Vec<Vec<Piece>> {
         if !(hp.ends_with('(') || hp.ends_with(',')) {
             continue;
         }
-        for body in [vec![masked("1;2")], vec![masked("a;b")], vec![p("1", Kind::Int(1)), p("+", Kind::Op(T::PLUS)), masked("a;")], vec![masked(";")]] {
+        for (bi, body) in [
+            vec![masked("1;2")],
+            vec![masked("a;b")],
+            vec![p("1", Kind::Int(1)), p("+", Kind::Op(T::PLUS)), masked("a;")],
+            vec![masked(";")],
+            vec![p("(", Kind::Op(T::LPAREN)), masked("1,2"), p(")", Kind::Op(T::RPAREN))],
+            vec![p("(", Kind::Op(T::LPAREN)), masked(","), p(")", Kind::Op(T::RPAREN))],
+            vec![other("&a in "), p("(", Kind::Op(T::LPAREN)), masked("1,2;3"), p(")", Kind::Op(T::RPAREN))],
+        ]
+        .into_iter()
+        .enumerate()
+        {
+            // %sysevalf takes its conversion type after the first comma at any depth
+            if bi >= 4 && hp.starts_with("%sysevalf") {
+                continue;
+            }
             let stat = hp.starts_with("%do") || hp.starts_with("%if");
             let mut v = if stat { vec![other(hp)] } else { vec![other("%put "), other(hp)] };
             v.extend(body);
